@@ -44,6 +44,18 @@ theorem C01_reviewed_sites_name_their_lemma :
     argument of a `telemetry.*` call -/
 theorem C01_wall_clock_only_feeds_telemetry : ∀ c ∈ timeNowCalls, c.2.2 = "telemetry" := by decide +kernel
 
+/-- "the same on every node" also means: independent of the HOST's time zone.  `time.Unix` & co. return times
+    in `time.Local`; calendar fields (`Day`, `Hour`, `Month`, `AddDate`) of such a value differ between hosts.
+    Every call that builds a time in the host's zone (or consults its zone database) in x/ and app/ is either
+    converted to UTC at once or one of the reviewed sites below: the four `GetDeadline` methods of x/swap
+    messages, whose result is only ever compared as an instant (`DeadlineExceeded`: `blockTime.Unix() >= Deadline`). -/
+theorem C01_no_host_time_zone :
+    ∀ c ∈ localTimeCalls, c.2.2.endsWith ":utc" = true ∨
+      c ∈ [("x/swap/types/msg.go", "MsgDeposit.GetDeadline", "time.Unix:local"),
+           ("x/swap/types/msg.go", "MsgWithdraw.GetDeadline", "time.Unix:local"),
+           ("x/swap/types/msg.go", "MsgSwapExactForTokens.GetDeadline", "time.Unix:local"),
+           ("x/swap/types/msg.go", "MsgSwapForExactTokens.GetDeadline", "time.Unix:local")] := by decide +kernel
+
 /-- randomness appears only in the test helper and the client-side bep3 secret generator -/
 theorem C01_no_randomness_in_consensus_code : ∀ r ∈ randUses, (r.1, r.2.1) ∈ randAllowed := by decide
 
